@@ -210,9 +210,9 @@ pub fn math_pow(
 ) -> Result<Guarded, JsError> {
     let base = args.first().map(|v| v.to_number()).unwrap_or(f64::NAN);
     let exp = args.get(1).map(|v| v.to_number()).unwrap_or(f64::NAN);
-    Ok(Guarded::unguarded(JsValue::Number(prelude_math::powf(
-        base, exp,
-    ))))
+    Ok(Guarded::unguarded(JsValue::Number(
+        crate::value::number_exponentiate(base, exp),
+    )))
 }
 
 pub fn math_sqrt(
